@@ -73,6 +73,16 @@ def rule_spec(ctx) -> RuleResult:
     res.inst("write_entity: project['Root'] = entity_handle (hard link to the root group's node)", ok=ok)
     if not ok:
         res.find("H5Writer", "write_entity", "Root link missing or not the root group's node", we.where, "the mandatory Root link is absent or points elsewhere")
+    # the Root link may only ever designate the workspace's own root group
+    for a in root_links:
+        chain_ = [i for i in ast.walk(we.node) if isinstance(i, ast.If) and any(x is a for s_ in i.body for x in ast.walk(s_))]
+        gtxt = " and ".join(unparse(i.test) for i in chain_)
+        ok = "workspace.root" in gtxt or "is_root" in gtxt
+        res.inst(f"write_entity: Root link assigned under `{gtxt[:80]}`", nontrivial=True, ok=ok)
+        if not ok:
+            res.find("H5Writer", "write_entity", "Root link re-pointed for ANY RootGroup instance", f"{we.module.relpath}:{a.lineno}",
+                     "writing a second RootGroup (e.g. the copy of another workspace's root) re-points the file's Root link at it: the original "
+                     "root and everything under it become unreachable from Root")
     # type uids
     uids = doc.type_uids()
     by_uid = {}
